@@ -4,7 +4,7 @@ import sem
 from common import build, log
 LEVEL = "model_checking"
 
-FAMILIES = ["prefix1", "prefix2", "prio", "overlap", "literal", "dup", "layered", "args", "pslot"]
+FAMILIES = ["prefix1", "prefix2", "prio", "overlap", "literal", "dup", "layered", "args", "pslot", "manyslots"]
 
 
 def run(chk):
@@ -13,9 +13,11 @@ def run(chk):
     for fam in FAMILIES:
         big = fam in ("prefix1", "prefix2", "overlap")
         L = 6 if chk.thorough else (5 if big else 4)
+        if fam == "manyslots":          # two symbols only: long enough for the eleven-slot pattern (and a second use behind it)
+            L = 14 if chk.thorough else 13
         inv = ("UniquePerLoc", "BestAgree", "PassBound") + (() if fam == "dup" else ("GrowthBound",))
         macros = macro.family_macros(chk, fam)
-        cases = macro.enumerate_paths(chk, fam, L, 4 if chk.thorough else 3, invariants=inv)
+        cases = macro.enumerate_paths(chk, fam, L, 2 if fam == "manyslots" else 4 if chk.thorough else 3, invariants=inv)
         total += macro.replay(chk, th, fam, macros, cases, "c09")
         if fam in ("literal", "pslot", "args"):      # keyword literals match by kind: the program spells them differently from the pattern
             total += macro.replay(chk, th, fam, macros, cases, "c09:altcase", layout="altcase")
@@ -29,7 +31,7 @@ def run(chk):
     chk.cov["traces_validated_against_impl"] = total
     chk.cov["end_to_end_programs_accepted"] = acc
     chk.cov["exhaustive"] = True
-    chk.cov["rule"] = ("TheoMacro (declarative match relation, Best = priority > leftmost > longest) on 9 macro families (prefix patterns in both "
+    chk.cov["rule"] = ("TheoMacro (declarative match relation, Best = priority > leftmost > longest) on 10 macro families (eleven slots with two-digit insertion indices, prefix patterns in both "
                        "definition orders, distinct priorities, equal priorities with overlapping candidates, literal identifier/operator/keyword "
                        "constraints (keywords also spelled differently in the program than in the pattern), a slot used twice in a body, layered macros whose bodies introduce the other pattern's operator, ID/INT/VALUE/ARGS/P slots with nested calls and statement sequences): all streams of <= 5 (thorough 6) tokens "
                        "over the family's vocabulary, every rewriting path; the k-th stream of apply_macros(budget k) must equal the k-th "
